@@ -52,7 +52,10 @@ def payload(i):
         return 0
     if i % 7 == 4:
         return []
-    size = 9000 if i % 3 == 0 else 3 + i % 5
+    # (40000: the serialised example is larger than 32 KiB, the size from
+    # which the disk store keeps a value in a file of its own instead of in
+    # its database)
+    size = (40000 if i % 9 == 0 else 9000) if i % 3 == 0 else 3 + i % 5
     return {'id': i, 'payload': [i] * size}
 
 
